@@ -208,7 +208,7 @@ func (f *flusher) flush(b *blob) {
 				"key", key,
 				"error", err,
 			).Error("Could not flush data from mem to disk, abandoning flushing operation")
-			f.handleFlushFailure(key)
+			f.handleFlushFailure(b)
 			return
 		}
 	}
@@ -219,23 +219,29 @@ func (f *flusher) flush(b *blob) {
 			"key", key,
 			"error", err,
 		).Error("Could not flush metadata from mem to disk, abandoning flushing operation")
-		f.handleFlushFailure(key)
+		f.handleFlushFailure(b)
 	}
 }
 
 // Tries to prevent corrupt state in disk store upon failed flush. To do so, the flush to disk is aborted,
 // simulating similar behavior to the file being flushed and subsequently evicted by the disk store's LRU policy.
 // This will break any open [File] handles to the blob after eviction from memory, but it's the best we can do.
-func (f *flusher) handleFlushFailure(key string) {
+func (f *flusher) handleFlushFailure(b *blob) {
+	key := b.key
+
+	f.mu.Lock()
+	defer f.mu.Unlock()
+	if f.blobs[key] != b {
+		// The flush was aborted (the blob was deleted, and the key may have been re-created
+		// since): whatever is on disk under this key is not ours to clean up.
+		return
+	}
 	if err := f.disk.Delete(key); err != nil && !errors.Is(err, os.ErrNotExist) {
 		f.log.With(
 			"key", key,
 			"error", err).
 			Error("Could not clean disk entry after flushing failed, blob is now leaked in disk store")
 	}
-
-	f.mu.Lock()
-	defer f.mu.Unlock()
 	delete(f.blobs, key)
 }
 
@@ -248,7 +254,7 @@ func (f *flusher) flushMetadatasAndUnmarkDirty(key string, b *blob) error {
 
 		for mdSuffix := range dirtyMDSnapshot {
 			verifYield("flushMD.beforeFlush", key)
-			err := f.flushMetadata(key, mdSuffix)
+			err := f.flushMetadata(b, mdSuffix)
 			if err != nil {
 				f.log.With(
 					"key", key,
@@ -278,7 +284,8 @@ func (f *flusher) flushMetadatasAndUnmarkDirty(key string, b *blob) error {
 	}
 }
 
-func (f *flusher) flushMetadata(key, mdSuffix string) error {
+func (f *flusher) flushMetadata(b *blob, mdSuffix string) error {
+	key := b.key
 	md := metadata.CreateFromSuffix(mdSuffix)
 	ok, err := f.mem.GetMetadata(key, md)
 	if errors.Is(err, os.ErrNotExist) {
@@ -288,6 +295,12 @@ func (f *flusher) flushMetadata(key, mdSuffix string) error {
 		return fmt.Errorf("mem store get md: %w", err)
 	}
 	verifYield("flushMD.afterMemRead", key)
+	// The write below must not land on a re-created key: abort takes f.mu.
+	f.mu.Lock()
+	defer f.mu.Unlock()
+	if f.blobs[key] != b {
+		return nil
+	}
 	if !ok {
 		err = f.disk.DeleteMetadata(key, md.GetSuffix())
 		if errors.Is(err, os.ErrNotExist) {
@@ -351,7 +364,15 @@ func (f *flusher) flushData(b *blob) error {
 		return fmt.Errorf("io copy from mem file to disk file: %w", err)
 	}
 	verifYield("flushData.beforeMarkComplete", key)
+	f.mu.Lock()
+	if f.blobs[key] != b {
+		// abort was called while we copied: our disk entry was deleted along with the blob,
+		// and the key may have been re-created since. Nothing on disk is ours to complete.
+		f.mu.Unlock()
+		return nil
+	}
 	err = f.disk.MarkComplete(key)
+	f.mu.Unlock()
 	if errors.Is(err, os.ErrNotExist) {
 		return nil
 	}
